@@ -266,7 +266,16 @@ func (g *Gen) gotoShape(depth, d int) []Stmt {
 // faultStmt: a statement that raises when executed.
 func (g *Gen) faultStmt() []Stmt {
 	z := g.fresh("z")
-	switch g.R.Pick(20, 8, 8, 8, 10, 8, 8, 8, 6, 6, 5, 5) {
+	switch g.R.Pick(20, 8, 8, 8, 10, 8, 8, 8, 6, 6, 5, 5, 6, 5) {
+	case 12: // the failing host function is reached through an unnamed callee (t[i](...))
+		g.use("fault-indexed-builtin")
+		if g.R.Bool() {
+			return []Stmt{local1(z, &Table{Items: []TItem{{Kind: 0, E: v("error")}, {Kind: 0, E: v("setmetatable")}}}), &CallS{E: &Call{F: &Index{E: v(z), K: num(1)}, Args: []Expr{&Table{Items: []TItem{{Kind: 1, Name: "code", E: g.litInt()}}}}}}}
+		}
+		return []Stmt{local1(z, &Table{Items: []TItem{{Kind: 0, E: v("error")}, {Kind: 0, E: v("setmetatable")}}}), &CallS{E: &Call{F: &Index{E: v(z), K: num(2)}, Args: []Expr{num(1), &Table{}}}}}
+	case 13: // error inside a wrapped coroutine called anonymously
+		g.use("fault-in-wrap-call")
+		return []Stmt{&CallS{E: &Call{F: call("coroutine.wrap", &Func{Body: []Stmt{&CallS{E: call("error", &Table{Items: []TItem{{Kind: 1, Name: "code", E: g.litInt()}}})}}})}}}
 	case 0:
 		g.use("fault-error-string")
 		return []Stmt{&CallS{E: call("error", str([]string{"boom", "bad", ""}[g.R.Intn(3)]))}}
